@@ -149,7 +149,7 @@ enum RItem {
 /// the identity of a definition is carried by the name of the first field of its selection set: d<ID>
 fn id_of(ss: &SelectionSet) -> u64 {
     match ss.selections.first() {
-        Some(Selection::Field(f)) => f.name.name.trim_start_matches('d').parse().unwrap_or(999_999),
+        Some(Selection::Field(f)) => f.alias.map(|a| a.name).unwrap_or(f.name.name).trim_start_matches('d').parse().unwrap_or(999_999),
         _ => 999_999,
     }
 }
@@ -761,6 +761,187 @@ fn random_ext(rng: &mut Rng) -> String {
     lines.join("\n") + "\n"
 }
 
+
+// ------------------------------------------------------------------ end to end through the real CLI
+//
+// `nitrogql check` on a project directory: every operation file is a root, the resolver is
+// `Operations` of crates/cli/src/check.rs (keys = the paths the CLI globbed: `<cwd>/./ops/...`).
+// Observed: per file, the import-stage messages and the checker's "Fragment 'X' is not defined".
+
+struct EFile {
+    rel: String, // below ops/
+    frags: Vec<String>,
+    imports: Vec<(String, Vec<String>)>,
+    spreads: Vec<String>,
+}
+fn render_e2e(f: &EFile, idx: usize) -> String {
+    let mut lines: Vec<String> = f.imports.iter().map(|(p, ts)| format!("#import {} from \"{}\"", ts.join(", "), p)).collect();
+    let mut id = idx * 100;
+    for n in &f.frags { lines.push(format!("fragment {} on T {{ d{}: f }}", n, id)); id += 1; }
+    let sp: Vec<String> = f.spreads.iter().map(|s| format!("...{}", s)).collect();
+    lines.push(format!("query Q{} {{ d{}: t {{ f {} }} }}", idx, id, sp.join(" ")));
+    lines.join("\n") + "\n"
+}
+fn e2e_fixed() -> Vec<(String, Vec<EFile>)> {
+    let ef = |rel: &str, frags: &[&str], imports: &[(&str, &[&str])], spreads: &[&str]| EFile {
+        rel: rel.into(),
+        frags: frags.iter().map(|s| s.to_string()).collect(),
+        imports: imports.iter().map(|(p, ts)| (p.to_string(), ts.iter().map(|s| s.to_string()).collect())).collect(),
+        spreads: spreads.iter().map(|s| s.to_string()).collect(),
+    };
+    vec![
+        ("e2e diamond".into(), vec![
+            ef("main.graphql", &[], &[("./y.graphql", &["F"]), ("./x.graphql", &["FA"])], &["F", "FA", "FB"]),
+            ef("x.graphql", &["FA", "FB"], &[], &[]),
+            ef("y.graphql", &["F"], &[("./x.graphql", &["FB"])], &["FB"]),
+        ]),
+        ("e2e tree".into(), vec![
+            ef("main.graphql", &[], &[("./sub/y.graphql", &["F"]), ("x.graphql", &["*"])], &["F", "FA", "FB", "G"]),
+            ef("x.graphql", &["FA", "FB"], &[], &[]),
+            ef("sub/y.graphql", &["F"], &[("../z.graphql", &["G"])], &["G"]),
+            ef("z.graphql", &["G", "H"], &[], &["H"]),
+        ]),
+        ("e2e respelled".into(), vec![
+            ef("main.graphql", &[], &[("./x.graphql", &["FA"]), ("././x.graphql", &["FB"])], &["FA", "FB"]),
+            ef("x.graphql", &["FA", "FB"], &[], &[]),
+        ]),
+        ("e2e cycle through root".into(), vec![
+            ef("main.graphql", &["R"], &[("./x.graphql", &["FA"])], &["FA", "R"]),
+            ef("x.graphql", &["FA"], &[("./main.graphql", &["R"])], &["R"]),
+        ]),
+        ("e2e duplicate target".into(), vec![
+            ef("main.graphql", &[], &[("./x.graphql", &["FA", "FA"])], &["FA"]),
+            ef("x.graphql", &["FA"], &[], &[]),
+        ]),
+        ("e2e missing file and fragment".into(), vec![
+            ef("main.graphql", &[], &[("./x.graphql", &["FA", "Zz"])], &["FA"]),
+            ef("x.graphql", &["FA"], &[("./nowhere.graphql", &["A"])], &[]),
+        ]),
+        ("e2e recursive".into(), vec![
+            ef("main.graphql", &[], &[("./rec/frag1.graphql", &["Frag1"])], &["Frag1", "Frag2"]),
+            ef("rec/frag1.graphql", &["Frag1"], &[("frag2.graphql", &["Frag2"])], &["Frag2"]),
+            ef("rec/frag2.graphql", &["Frag2"], &[("frag1.graphql", &["Frag1"])], &["Frag1"]),
+        ]),
+    ]
+}
+fn e2e_random(rng: &mut Rng) -> Vec<EFile> {
+    let n = rng.range(2, 6);
+    let dirs = ["", "sub/", "other/"];
+    let mut fs: Vec<EFile> = (0..n).map(|i| {
+        let mut frags: Vec<String> = vec![];
+        for _ in 0..rng.range(0, 3) { let nm = rng.pick(POOL).to_string(); if !frags.contains(&nm) { frags.push(nm); } }
+        EFile { rel: format!("{}f{}.graphql", dirs[rng.below(3)], i), frags, imports: vec![], spreads: vec![] }
+    }).collect();
+    for i in 0..n {
+        for _ in 0..[0, 1, 1, 2, 2, 3][rng.below(6)] {
+            let j = if rng.chance(1, 12) { i } else { rng.below(n) };
+            let from = format!("/r/ops/{}", fs[i].rel);
+            let to = if rng.chance(1, 25) { "/r/ops/nowhere.graphql".to_string() } else { format!("/r/ops/{}", fs[j].rel) };
+            let p = spell(rng, &from, &to);
+            let p = if p.starts_with('/') { relative_path(Path::new(&from), Path::new(&to)).to_str().unwrap().to_string() } else { p };
+            let tf = fs[j].frags.clone();
+            let ts: Vec<String> = if rng.chance(1, 4) { vec!["*".into()] } else {
+                let mut v = vec![];
+                for _ in 0..rng.range(1, 2) {
+                    let nm = if !tf.is_empty() && rng.chance(9, 10) { rng.pick(&tf).clone() } else { rng.pick(POOL).to_string() };
+                    if !v.contains(&nm) || rng.chance(1, 15) { v.push(nm); }
+                }
+                v
+            };
+            fs[i].imports.push((p, ts));
+        }
+    }
+    for i in 0..n {
+        let mut sp: Vec<String> = vec![];
+        for nm in POOL { if rng.chance(1, 2) { sp.push(nm.to_string()); } }
+        fs[i].spreads = sp;
+    }
+    fs
+}
+
+enum CliObs { Diags(Vec<Vec<String>>), Crash }
+
+fn run_e2e(cli: &Path, base: &Path, idx: usize, label: &str, files: &[EFile]) -> Option<Ran> {
+    let dir = base.join(format!("p{}", idx));
+    let _ = std::fs::remove_dir_all(&dir);
+    std::fs::create_dir_all(dir.join("ops")).ok()?;
+    std::fs::write(dir.join("graphql.config.yaml"), "schema: ./schema.graphql\ndocuments: ./ops/**/*.graphql\n").ok()?;
+    std::fs::write(dir.join("schema.graphql"), "type Query { t: T }\ntype T { f: Int }\n").ok()?;
+    let texts: Vec<String> = files.iter().enumerate().map(|(i, f)| render_e2e(f, i)).collect();
+    for (f, t) in files.iter().zip(&texts) {
+        let p = dir.join("ops").join(&f.rel);
+        std::fs::create_dir_all(p.parent()?).ok()?;
+        std::fs::write(&p, t).ok()?;
+    }
+    // the key under which the CLI stores a file: <cwd>/./ops/<rel>
+    let keys: Vec<String> = files.iter().map(|f| format!("{}/./ops/{}", dir.to_str().unwrap(), f.rel)).collect();
+    let outp = std::process::Command::new(cli)
+        .args(["check", "--config-file", "./graphql.config.yaml", "--output-format", "json"])
+        .current_dir(&dir)
+        .output()
+        .ok()?;
+    let stdout = String::from_utf8_lossy(&outp.stdout).to_string();
+    let parsed: Option<Value> = serde_json::from_str(stdout.trim()).ok();
+    let obs = match (&parsed, outp.status.code()) {
+        (Some(v), Some(0)) | (Some(v), Some(1)) => {
+            let mut per: Vec<BTreeSet<String>> = vec![BTreeSet::new(); files.len()];
+            let mut foreign = false;
+            for e in v["check"]["errors"].as_array().cloned().unwrap_or_default() {
+                let msg = e["message"].as_str().unwrap_or("").to_string();
+                let relevant = (msg.starts_with("Fragment '") && msg.ends_with("' is not defined"))
+                    || (msg.starts_with("File '") && msg.ends_with("' not found."))
+                    || msg.contains("' is not found in the imported file '");
+                if !relevant { continue; }
+                let path = e["file"]["path"].as_str().unwrap_or("");
+                match keys.iter().position(|k| Path::new(k) == Path::new(path)) {
+                    Some(i) => { per[i].insert(msg); }
+                    None => foreign = true,
+                }
+            }
+            if foreign { return None; }
+            CliObs::Diags(per.into_iter().map(|s| s.into_iter().collect()).collect())
+        }
+        _ => CliObs::Crash,
+    };
+    // the parser's view of each file, for the model; file indices as the CLI assigns them are not
+    // observable here, so positions carry the generation index
+    let mut items: Vec<Vec<RItem>> = vec![];
+    for (i, t) in texts.iter().enumerate() {
+        set_current_file_of_pos(i);
+        let doc = parse_operation_document(t).ok()?;
+        items.push(items_of(&doc));
+        resolve_operation_extensions(doc).ok()?; // projects whose files fail here are not generated on purpose
+    }
+    // labels: the in-process analysis of every file as a root
+    let store: Vec<GFile> = keys.iter().zip(&texts).map(|(k, t)| GFile { path: k.clone(), text: t.clone() }).collect();
+    let mut classes: BTreeSet<String> = BTreeSet::new();
+    let mut explained = true;
+    for i in 0..files.len() {
+        let c = GCase { files: store.clone(), root_path: keys[i].clone(), root_text: texts[i].clone(), label: label.into() };
+        if let Some(r) = run_case(&c) {
+            let cs: Vec<String> = r.descr["classes"].as_array().map(|a| a.iter().map(|x| x.as_str().unwrap().to_string()).collect()).unwrap_or_default();
+            if (r.kind == "ok-wrong" || r.kind == "panic") && cs.is_empty() { explained = false; }
+            classes.extend(cs);
+        }
+    }
+    if !explained { classes.clear(); }
+    let files_term = coq_list(&(0..files.len()).collect::<Vec<_>>(), |i| {
+        format!("({}, {}, {})", istr(&keys[*i]), coq_items(&items[*i]), coq_list(&files[*i].spreads, |s| istr(s)))
+    });
+    let (obs_term, obs_json) = match &obs {
+        CliObs::Diags(per) => (format!("(CliDiags {})", coq_list(per, |ms| coq_list(ms, |m| istr(m)))), json!({"diags": per})),
+        CliObs::Crash => ("CliCrash".to_string(), json!({"crash": String::from_utf8_lossy(&outp.stderr).lines().take(3).collect::<Vec<_>>()})),
+    };
+    let _ = std::fs::remove_dir_all(&dir);
+    Some(Ran {
+        term: format!("CCli {} {}", files_term, obs_term),
+        descr: json!({"kind": "cli", "label": label,
+                      "files": files.iter().zip(&texts).map(|(f, t)| json!({"path": format!("ops/{}", f.rel), "text": t})).collect::<Vec<_>>(),
+                      "observed": obs_json, "classes": classes.into_iter().collect::<Vec<_>>()}),
+        kind: "cli",
+    })
+}
+
 // ------------------------------------------------------------------ main
 
 fn main() {
@@ -820,6 +1001,30 @@ fn main() {
         let r = run_ext(&t, 0, "ext");
         push(&mut cases, &c, r, false);
     }
+    // 5. end to end through the real CLI binary (when the check hands one over)
+    let mut n_cli = 0u64;
+    if let Some(pos) = args.extra.iter().position(|a| a == "--cli") {
+        let cli = PathBuf::from(&args.extra[pos + 1]);
+        let base = args.out.join("e2e");
+        let mut k = 0;
+        for (label, files) in e2e_fixed() {
+            let c = GCase { files: vec![], root_path: format!("e2e-{}", k), root_text: label.clone(), label: label.clone() };
+            let r = run_e2e(&cli, &base, k, &label, &files);
+            if r.is_some() { n_cli += 1; }
+            push(&mut cases, &c, r, false);
+            k += 1;
+        }
+        let n_rand = if thorough { 150 } else { 25 };
+        for _ in 0..n_rand {
+            let files = e2e_random(&mut rng);
+            let c = GCase { files: vec![], root_path: format!("e2e-{}", k), root_text: format!("{:?}", files.iter().map(|f| (&f.rel, &f.imports, &f.spreads, &f.frags)).collect::<Vec<_>>()), label: "e2e-random".into() };
+            let r = run_e2e(&cli, &base, k, "e2e-random", &files);
+            if r.is_some() { n_cli += 1; }
+            push(&mut cases, &c, r, false);
+            k += 1;
+        }
+        let _ = std::fs::remove_dir_all(&base);
+    }
     write_interned(&cases, &args.out);
     write_meta(&args.out, &json!({
         "evaluations": cases.len(),
@@ -830,6 +1035,7 @@ fn main() {
             "by_generator": labels, "by_outcome": kinds, "by_shape": shapes,
             "cases_inside_theorem_guard": n_guard, "of_which_exact_or_due_error": n_guard_ok,
             "known_class_hits": classes, "texts_rejected_by_parser": unparsed,
+            "projects_run_through_the_real_cli": n_cli,
             "exhaustive_plans(files, max import lines per file)": plans.iter().map(|(n, m)| json!([n, m])).collect::<Vec<_>>(),
         },
     }));
